@@ -356,6 +356,12 @@ impl Exec {
                 self.node();
                 continue;
             }
+            // the domain of the properties and theorems ends where the u8 half-move clock would
+            // overflow (155 plies after the engine has declared the game drawn); stop before it
+            if self.ctx.board.halfmove_clock() >= 250 {
+                self.tally("walks-stopped-at-clock-domain");
+                break;
+            }
             let ms = self.legal();
             if ms.is_empty() {
                 break;
@@ -504,6 +510,317 @@ fn attacked(m: &[Option<(Piece, Color)>; 64], sq: usize, c: Color) -> bool {
     false
 }
 
+// ---------------------------------------------------------------- themed set-ups
+// Uniformly random set-ups almost never contain the arrangements that the rules make delicate
+// (a pin, two pieces lifted off one line by an en-passant capture, an attacked castling square,
+// a promotion on a corner).  `themed_setup` builds such an arrangement on purpose, adds random
+// filler and then passes through the same consistency filter as `random_setup`.
+
+fn ray_from(sq: usize, dr: i32, df: i32) -> Vec<usize> {
+    let (mut r, mut f) = ((sq / 8) as i32 + dr, (sq % 8) as i32 + df);
+    let mut v = vec![];
+    while (0..8).contains(&r) && (0..8).contains(&f) {
+        v.push((r * 8 + f) as usize);
+        r += dr;
+        f += df;
+    }
+    v
+}
+
+const DIRS8: [(i32, i32); 8] = [(0, 1), (0, -1), (1, 0), (-1, 0), (1, 1), (1, -1), (-1, 1), (-1, -1)];
+const KNIGHT_D: [(i32, i32); 8] = [(1, 2), (2, 1), (-1, 2), (-2, 1), (1, -2), (2, -1), (-1, -2), (-2, -1)];
+
+fn put_if_empty(p: &mut Pos, sq: usize, pc: Piece, c: Color) -> bool {
+    if p.cells[sq].is_some() || (pc == Piece::Pawn && (sq < 8 || sq >= 56)) {
+        return false;
+    }
+    p.cells[sq] = Some((pc, c));
+    true
+}
+
+fn slider_for(rng: &mut Rng, dr: i32, df: i32) -> Piece {
+    let diag = dr != 0 && df != 0;
+    if rng.chance(1, 3) {
+        Piece::Queen
+    } else if diag {
+        Piece::Bishop
+    } else {
+        Piece::Rook
+    }
+}
+
+fn random_king_sq(rng: &mut Rng, p: &Pos) -> usize {
+    loop {
+        let s = rng.below(64);
+        if p.cells[s].is_none() {
+            return s;
+        }
+    }
+}
+
+/// the common tail of both generators: consistency filter, rights, en-passant target, clocks
+fn finish_setup(mut p: Pos, want_ep: Option<usize>, rng: &mut Rng) -> Option<Pos> {
+    let kings = |c: Color| (0..64).filter(|&i| p.cells[i] == Some((Piece::King, c))).collect::<Vec<_>>();
+    let (wks, bks) = (kings(Color::White), kings(Color::Black));
+    if wks.len() != 1 || bks.len() != 1 {
+        return None;
+    }
+    let (wk, bk) = (wks[0], bks[0]);
+    let (dr, df) = (((wk / 8) as i32 - (bk / 8) as i32).abs(), ((wk % 8) as i32 - (bk % 8) as i32).abs());
+    if dr <= 1 && df <= 1 {
+        return None;
+    }
+    for sq in (0..8).chain(56..64) {
+        if let Some((Piece::Pawn, _)) = p.cells[sq] {
+            return None;
+        }
+    }
+    for c in [Color::White, Color::Black] {
+        let count = |pc: Piece| p.cells.iter().filter(|x| **x == Some((pc, c))).count() as i32;
+        let surplus = (count(Piece::Knight) - 2).max(0) + (count(Piece::Bishop) - 2).max(0) + (count(Piece::Rook) - 2).max(0) + (count(Piece::Queen) - 1).max(0);
+        if count(Piece::Pawn) + surplus > 8 {
+            return None;
+        }
+    }
+    let other = p.turn.opposite();
+    let ok = if other == Color::White { wk } else { bk };
+    if attacked(&p.cells, ok, p.turn) {
+        return None;
+    }
+    let mut rights = 0u8;
+    for (bit, k, r, c) in [(8u8, 4usize, 7usize, Color::White), (2, 4, 0, Color::White), (4, 60, 63, Color::Black), (1, 60, 56, Color::Black)] {
+        if p.cells[k] == Some((Piece::King, c)) && p.cells[r] == Some((Piece::Rook, c)) && rng.chance(75, 100) {
+            rights |= bit;
+        }
+    }
+    p.rights = rights;
+    let mut cands = vec![];
+    for f in 0..8 {
+        if other == Color::Black {
+            let (pawn, mid, orig) = (32 + f, 40 + f, 48 + f);
+            if p.cells[pawn] == Some((Piece::Pawn, Color::Black)) && p.cells[mid].is_none() && p.cells[orig].is_none() {
+                cands.push(mid);
+            }
+        } else {
+            let (pawn, mid, orig) = (24 + f, 16 + f, 8 + f);
+            if p.cells[pawn] == Some((Piece::Pawn, Color::White)) && p.cells[mid].is_none() && p.cells[orig].is_none() {
+                cands.push(mid);
+            }
+        }
+    }
+    p.ep = None;
+    if let Some(t) = want_ep {
+        if !cands.contains(&t) {
+            return None;
+        }
+        // the double step must not have been made with the mover's king already attacked through
+        // the origin square etc.: any such arrangement is still a consistent set-up (the statement
+        // quantifies over set-ups made through the editing API), so nothing more is required
+        p.ep = Some(t);
+    } else if !cands.is_empty() && rng.chance(60, 100) {
+        p.ep = Some(cands[rng.below(cands.len())]);
+    }
+    p.half = rng.below(40) as u8;
+    p.full = 1 + rng.below(80) as u16;
+    Some(p)
+}
+
+pub fn themed_setup(rng: &mut Rng) -> Pos {
+    loop {
+        let mut p = Pos::empty();
+        let t = if rng.chance(1, 2) { Color::White } else { Color::Black };
+        let o = t.opposite();
+        p.turn = t;
+        let mut want_ep = None;
+        let theme = rng.below(10);
+        match theme {
+            0..=3 => {
+                // en passant with a line through the pawns
+                let r = if t == Color::White { 4usize } else { 3usize };
+                let fc = rng.below(8);
+                let fe = if fc == 0 { 1 } else if fc == 7 { 6 } else if rng.chance(1, 2) { fc - 1 } else { fc + 1 };
+                let (cap, vic) = (r * 8 + fc, r * 8 + fe);
+                let tgt = if t == Color::White { vic + 8 } else { vic - 8 };
+                p.cells[cap] = Some((Piece::Pawn, t));
+                p.cells[vic] = Some((Piece::Pawn, o));
+                want_ep = Some(tgt);
+                if rng.chance(1, 3) {
+                    // a second capturer on the other side of the victim
+                    let f2 = 2 * fe as i32 - fc as i32;
+                    if (0..8).contains(&f2) {
+                        p.cells[r * 8 + f2 as usize] = Some((Piece::Pawn, t));
+                    }
+                }
+                let sub = rng.below(6);
+                // which of the mover's king / an enemy slider stand on a line through `through`
+                let through = match sub {
+                    0 | 1 => None, // the rank through both pawns
+                    2 => Some(vic),
+                    3 => Some(cap),
+                    4 => Some(tgt),
+                    _ => None,
+                };
+                if sub <= 1 {
+                    let (lo, hi) = (fc.min(fe), fc.max(fe));
+                    let left: Vec<usize> = (0..lo).collect();
+                    let right: Vec<usize> = (hi + 1..8).collect();
+                    if !left.is_empty() && !right.is_empty() {
+                        let (kf, sf) = (left[rng.below(left.len())], right[rng.below(right.len())]);
+                        let (kf, sf) = if rng.chance(1, 2) { (kf, sf) } else { (sf, kf) };
+                        p.cells[r * 8 + kf] = Some((Piece::King, t));
+                        let pc = if rng.chance(1, 3) { Piece::Queen } else { Piece::Rook };
+                        p.cells[r * 8 + sf] = Some((pc, o));
+                        if rng.chance(1, 5) {
+                            // an extra blocker somewhere on the rank: then the capture is fine
+                            let f = rng.below(8);
+                            put_if_empty(&mut p, r * 8 + f, Piece::Knight, if rng.chance(1, 2) { t } else { o });
+                        }
+                    }
+                } else if let Some(c) = through {
+                    let d = rng.below(8);
+                    let (dr, df) = DIRS8[d];
+                    if !(sub == 3 && dr == 0) {
+                        let a = ray_from(c, dr, df);
+                        let b = ray_from(c, -dr, -df);
+                        if !a.is_empty() && !b.is_empty() {
+                            let (ks, ss) = (a[rng.below(a.len())], b[rng.below(b.len())]);
+                            if p.cells[ks].is_none() && p.cells[ss].is_none() {
+                                p.cells[ks] = Some((Piece::King, t));
+                                p.cells[ss] = Some((slider_for(rng, dr, df), o));
+                            }
+                        }
+                    }
+                }
+            }
+            4 | 5 => {
+                // pins and discovered attacks: king, one or two blockers, a slider on one line
+                let kc = if rng.chance(3, 4) { t } else { o };
+                let k = rng.below(64);
+                p.cells[k] = Some((Piece::King, kc));
+                let lines = 1 + rng.below(3);
+                for _ in 0..lines {
+                    let (dr, df) = DIRS8[rng.below(8)];
+                    let ray = ray_from(k, dr, df);
+                    if ray.len() < 2 {
+                        continue;
+                    }
+                    let si = 1 + rng.below(ray.len() - 1);
+                    let nb = if rng.chance(1, 4) { 2 } else { 1 };
+                    put_if_empty(&mut p, ray[si], slider_for(rng, dr, df), kc.opposite());
+                    for _ in 0..nb {
+                        let bi = rng.below(si);
+                        let pc = [Piece::Pawn, Piece::Knight, Piece::Bishop, Piece::Rook, Piece::Queen, Piece::Pawn][rng.below(6)];
+                        put_if_empty(&mut p, ray[bi], pc, if rng.chance(2, 3) { kc } else { kc.opposite() });
+                    }
+                }
+            }
+            6 => {
+                // the mover is in check, by one or two pieces
+                let k = rng.below(64);
+                p.cells[k] = Some((Piece::King, t));
+                for _ in 0..(1 + rng.below(2)) {
+                    if rng.chance(1, 3) {
+                        let (dr, df) = KNIGHT_D[rng.below(8)];
+                        let (r, f) = ((k / 8) as i32 + dr, (k % 8) as i32 + df);
+                        if (0..8).contains(&r) && (0..8).contains(&f) {
+                            put_if_empty(&mut p, (r * 8 + f) as usize, Piece::Knight, o);
+                        }
+                    } else {
+                        let (dr, df) = DIRS8[rng.below(8)];
+                        let ray = ray_from(k, dr, df);
+                        if !ray.is_empty() {
+                            let sq = ray[rng.below(ray.len())];
+                            put_if_empty(&mut p, sq, slider_for(rng, dr, df), o);
+                        }
+                    }
+                }
+            }
+            7 | 8 => {
+                // castling: kings and rooks at home, enemy pieces bearing on the back rank
+                p.cells[4] = Some((Piece::King, Color::White));
+                p.cells[60] = Some((Piece::King, Color::Black));
+                for (sq, c) in [(0, Color::White), (7, Color::White), (56, Color::Black), (63, Color::Black)] {
+                    if rng.chance(85, 100) {
+                        p.cells[sq] = Some((Piece::Rook, c));
+                    } else if rng.chance(1, 2) {
+                        p.cells[sq] = Some((Piece::Rook, c.opposite())); // a captured-and-replaced corner
+                    }
+                }
+                let base = if t == Color::White { 0usize } else { 56usize };
+                for _ in 0..(1 + rng.below(3)) {
+                    let target = base + 1 + rng.below(6);
+                    if rng.chance(1, 4) {
+                        let (dr, df) = KNIGHT_D[rng.below(8)];
+                        let (r, f) = ((target / 8) as i32 + dr, (target % 8) as i32 + df);
+                        if (0..8).contains(&r) && (0..8).contains(&f) {
+                            put_if_empty(&mut p, (r * 8 + f) as usize, Piece::Knight, o);
+                        }
+                    } else if rng.chance(1, 5) {
+                        // a pawn attacking the square
+                        let r = if t == Color::White { 1i32 } else { 6i32 };
+                        let f = (target % 8) as i32 + if rng.chance(1, 2) { 1 } else { -1 };
+                        if (0..8).contains(&f) {
+                            put_if_empty(&mut p, (r * 8 + f) as usize, Piece::Pawn, o);
+                        }
+                    } else {
+                        let (dr, df) = DIRS8[2 + rng.below(6)];
+                        let ray = ray_from(target, dr, df);
+                        if !ray.is_empty() {
+                            let sq = ray[rng.below(ray.len())];
+                            put_if_empty(&mut p, sq, slider_for(rng, dr, df), o);
+                        }
+                    }
+                }
+                if rng.chance(1, 3) {
+                    let sq = base + 1 + rng.below(6);
+                    let pc = [Piece::Knight, Piece::Bishop, Piece::Queen][rng.below(3)];
+                    put_if_empty(&mut p, sq, pc, if rng.chance(1, 2) { t } else { o });
+                }
+            }
+            _ => {
+                // promotions: the mover's pawns one step from the last rank, enemy pieces on it
+                let (r7, r8) = if t == Color::White { (6usize, 7usize) } else { (1usize, 0usize) };
+                if rng.chance(1, 2) {
+                    p.cells[if o == Color::White { 4 } else { 60 }] = Some((Piece::King, o));
+                    for sq in if o == Color::White { [0usize, 7] } else { [56usize, 63] } {
+                        if rng.chance(3, 4) {
+                            p.cells[sq] = Some((Piece::Rook, o));
+                        }
+                    }
+                }
+                for _ in 0..(1 + rng.below(3)) {
+                    let f = [0usize, 1, 6, 7, rng.below(8), rng.below(8)][rng.below(6)];
+                    put_if_empty(&mut p, r7 * 8 + f, Piece::Pawn, t);
+                    for g in [f as i32 - 1, f as i32, f as i32 + 1] {
+                        if (0..8).contains(&g) && rng.chance(1, 2) {
+                            let pc = [Piece::Rook, Piece::Knight, Piece::Bishop, Piece::Queen][rng.below(4)];
+                            put_if_empty(&mut p, r8 * 8 + g as usize, pc, o);
+                        }
+                    }
+                }
+            }
+        }
+        // kings that the theme did not place
+        for c in [Color::White, Color::Black] {
+            if !p.cells.iter().any(|x| *x == Some((Piece::King, c))) {
+                let s = random_king_sq(rng, &p);
+                p.cells[s] = Some((Piece::King, c));
+            }
+        }
+        // filler
+        let n = rng.below(9);
+        for _ in 0..n {
+            let sq = rng.below(64);
+            let c = if rng.chance(1, 2) { Color::White } else { Color::Black };
+            let pc = [Piece::Pawn, Piece::Pawn, Piece::Knight, Piece::Bishop, Piece::Rook, Piece::Queen][rng.below(6)];
+            put_if_empty(&mut p, sq, pc, c);
+        }
+        if let Some(q) = finish_setup(p, want_ep, rng) {
+            return q;
+        }
+    }
+}
+
 /// a random consistent set-up: one king each, no pawn on ranks 1/8, side not to move not
 /// in check, rights only with king and rook at home, ep target only behind a pawn that
 /// may just have made a double step
@@ -546,7 +863,7 @@ pub fn random_setup(rng: &mut Rng) -> Pos {
         for (k, r1, r2, c) in [(4usize, 0usize, 7usize, Color::White), (60, 56, 63, Color::Black)] {
             if p.cells[k] == Some((Piece::King, c)) {
                 for r in [r1, r2] {
-                    if rng.chance(60, 100) {
+                    if rng.chance(60, 100) && !matches!(p.cells[r], Some((Piece::King, _))) {
                         p.cells[r] = Some((Piece::Rook, c));
                     }
                 }
@@ -1500,7 +1817,9 @@ pub fn run(kv: &Args) {
                 if i % shards != shard {
                     continue;
                 }
-                let p = random_setup(&mut r);
+                // two in five are built around a delicate arrangement (pins, en-passant lines, attacked
+                // castling squares, corner promotions); the rest are uniformly random
+                let p = if r.chance(2, 5) { e.tally("themed-setups"); themed_setup(&mut r) } else { random_setup(&mut r) };
                 e.exec(&format!("pos {}", p.line()));
                 let mut b = kv.num("budget", 50) as i64;
                 e.tree(depth, &mut b);
